@@ -84,15 +84,34 @@ fn to_v1(mut v: Value, text: &str) -> Value {
           .and_then(|l| l.as_u64())
           .unwrap_or(0) as usize;
         if let Some(line) = lines.get(line_no) {
-          if let Some(rest) = line.strip_prefix("//") {
+          if line.starts_with("//") {
             let _ = t;
-            obj.insert(
-              "leadingComments".into(),
-              json!([{
-                "text": rest,
-                "range": [[line_no, 0], [line_no, line.len()]],
-              }]),
-            );
+            // the version-1 analyser stored every leading comment of the
+            // statement: the contiguous comment lines above it, the pragma
+            // being the last one
+            let mut first = line_no;
+            while first > 0
+              && (lines[first - 1].starts_with("//")
+                || (lines[first - 1].starts_with("/*")
+                  && lines[first - 1].ends_with("*/")))
+            {
+              first -= 1;
+            }
+            let comments: Vec<Value> = (first..=line_no)
+              .map(|n| {
+                let l = lines[n];
+                let text = if l.starts_with("//") {
+                  &l[2..]
+                } else {
+                  &l[2..l.len() - 2]
+                };
+                json!({
+                  "text": text,
+                  "range": [[n, 0], [n, l.len()]],
+                })
+              })
+              .collect();
+            obj.insert("leadingComments".into(), Value::Array(comments));
           }
         }
       }
